@@ -318,7 +318,10 @@ pub fn gen_font_base(rng: &mut Rng, u: &Universe) -> FontBase {
     let num_glyphs = 4 + rng.usize(36) as u16;
     let mut cmap = vec![];
     for c in &u.cps {
-        if rng.chance(5, 6) {
+        // U+FFFF is left out of the font: write-fonts/skrifa disagree about a
+        // format-4 mapping of U+FFFF (map() vs mappings()), which is not this
+        // property's concern.
+        if *c != 0xFFFF && rng.chance(5, 6) {
             cmap.push((*c, 1 + rng.usize(num_glyphs as usize - 1) as u16));
         }
     }
